@@ -153,3 +153,56 @@ impl quickcheck::Arbitrary for Version {
             .expect("slice not empty")
     }
 }
+
+/// Verification hooks (only with `--cfg libp2p_verif`): thin access to the crate-private
+/// negotiation message codec.
+#[cfg(libp2p_verif)]
+pub mod verif {
+    use bytes::{Bytes, BytesMut};
+
+    use crate::protocol::{HeaderLine, Message, Protocol, ProtocolError, verif_hooks};
+
+    /// Public mirror of the crate-private `Message`.
+    #[derive(Debug, Clone, PartialEq, Eq)]
+    pub enum Msg {
+        Header,
+        Protocol(String),
+        ListProtocols,
+        Protocols(Vec<String>),
+        NotAvailable,
+    }
+
+    /// `Message::encode` (body only; the length prefix is added by the framing layer).
+    /// Fails if a protocol name is not a valid `Protocol`.
+    pub fn encode_message(m: &Msg) -> Result<Vec<u8>, ProtocolError> {
+        let msg = match m {
+            Msg::Header => Message::Header(HeaderLine::V1),
+            Msg::Protocol(p) => Message::Protocol(Protocol::try_from(p.as_str())?),
+            Msg::ListProtocols => Message::ListProtocols,
+            Msg::Protocols(ps) => Message::Protocols(
+                ps.iter()
+                    .map(|p| Protocol::try_from(p.as_str()))
+                    .collect::<Result<Vec<_>, _>>()?,
+            ),
+            Msg::NotAvailable => Message::NotAvailable,
+        };
+        let mut buf = BytesMut::new();
+        verif_hooks::encode(&msg, &mut buf);
+        Ok(buf.to_vec())
+    }
+
+    /// `Message::decode`.
+    pub fn decode_message(bytes: &[u8]) -> Result<Msg, ProtocolError> {
+        Ok(
+            match verif_hooks::decode(Bytes::copy_from_slice(bytes))? {
+                Message::Header(HeaderLine::V1) => Msg::Header,
+                Message::Protocol(p) => Msg::Protocol(p.as_ref().to_owned()),
+                Message::ListProtocols => Msg::ListProtocols,
+                Message::Protocols(ps) => {
+                    Msg::Protocols(ps.iter().map(|p| p.as_ref().to_owned()).collect())
+                }
+                Message::NotAvailable => Msg::NotAvailable,
+            },
+        )
+    }
+}
